@@ -168,6 +168,10 @@ def generate(rng, family, package_dir, events=2000, vary=True, shipped_n=False):
         # the other single-point estimator (same options): never used by a shipped configuration
         set_out.setdefault("LeafUnitCellVetoEventHandler", {})["estimator"] = "boundary_point_estimator"
         set_out["BoundaryPointEstimator"] = dict(sections["InnerPointEstimator"])
+    if vary and family in ("atoms_cellb", "atoms_cellv") and rng.random() < 0.35:
+        # a charge filter on a signed charge (the shipped filter is the 0/1 oxygen indicator)
+        set_out.setdefault("SingleActiveCellOccupancy", {})["charge"] = "electric_charge"
+        set_out.setdefault("ElectricChargeValues", {})["charge_values"] = rng.choice(["-1", "-1", "1", "-0.5"])
     if vary:
         # scheduler
         if rng.random() < 0.5:
